@@ -119,8 +119,10 @@ func runC17(c *Ctx) {
 		hh := p.Fn("eio", "Server.handleHandshake")
 		for _, e := range findInstrs(hh, isErrReply) {
 			code := Term(e.(*ssa.Call).Call.Args[1])
+			// the bad-method reply: not reachable for a GET (decided by path pruning, so `if a && b` and `switch { case a && b: }` are alike)
+			viaGet, _ := PrunedCanReach(hh, nil, []Assume{{`\(r\.Method != "GET"\)`, false}, {`\(r\.Method == "GET"\)`, true}}, func(in ssa.Instruction) bool { return in == e }, nil)
 			switch {
-			case HasGuard(e, `\(r\.Method != "GET"\)==true`):
+			case !viaGet:
 				c.Ob("C17-D2", "eio.Server.handleHandshake/bad-method-code", e.Pos(), code == "2", "non-GET handshake answered with code "+code+" (expected 2)")
 			default:
 				// transport switch default: unreachable for polling / websocket
